@@ -27,6 +27,9 @@ open PqModel.Reset
 /-- the states a writer of configuration `cfg` can be in: any history from a fresh writer -/
 def history (M : Mirror) (cfg : Cfg) (ops : List Op) : Writer := run M cfg ops
 
+/-- one INT64 column `a` (configuration of the header-failure example below) -/
+def cfgHdr : Cfg := ⟨[⟨[[97]], 2, 0, [0], 0, 0⟩], [], []⟩
+
 /-- **reset_equiv** for the repaired mirror: for every reachable state `s` (any history, also one
 ending in an error), `observe (reset s)` is the observation of a fresh writer of the same
 configuration that carries `s`'s metadata list. -/
@@ -55,8 +58,19 @@ theorem reset_equiv_fixed_fresh (cfg : Cfg) (ops : List Op) (h : ∀ op ∈ ops,
   rw [reset_equiv_fixed, history, run, metadata_run fixed ops h]
   rfl
 
-example : ∀ op ∈ [Op.write 1 [], .flush (.failed 3 [] 0), .close (.committed 9 [1] [1]) false 12, .reset],
+example : ∀ op ∈ [Op.write 1 [], .closeHeaderFailed [] 3, .flush (.failed 3 [] 0), .close (.committed 9 [1] [1]) false 12, .reset],
     Op.isSetKV op = false := by decide
+
+/-- a Close that fails while writing the file header (sink accepts fewer than 4 bytes, no write buffer)
+leaves the pages the column writers have just cut in the writer — unlike every other failed Close,
+which runs the row group reset — and Reset still returns a fresh writer's observation -/
+example : (history fixed cfgHdr [.write 2 [{ ColVol.fresh ⟨⟨0, 1⟩, ⟨0, 1⟩, ⟨0, 1⟩, ⟨0, 1⟩, 2, 0, 2, 0, 0⟩ with buffered := [1, 2] }],
+      .closeHeaderFailed [{ ColVol.fresh ⟨⟨0, 1⟩, ⟨0, 1⟩, ⟨0, 1⟩, ⟨0, 1⟩, 2, 0, 2, 0, 0⟩ with
+        pageBuffer := some [7], numPages := 1, numRows := 2 }] 3]).cols.map (·.vol.numPages) = [1] ∧
+    observe fixed (resetWith fixed (history fixed cfgHdr
+      [.write 2 [{ ColVol.fresh ⟨⟨0, 1⟩, ⟨0, 1⟩, ⟨0, 1⟩, ⟨0, 1⟩, 2, 0, 2, 0, 0⟩ with buffered := [1, 2] }],
+       .closeHeaderFailed [{ ColVol.fresh ⟨⟨0, 1⟩, ⟨0, 1⟩, ⟨0, 1⟩, ⟨0, 1⟩, 2, 0, 2, 0, 0⟩ with
+        pageBuffer := some [7], numPages := 1, numRows := 2 }] 3])) = observe fixed (init cfgHdr) := by decide
 
 /-- **reset_equiv**, the property for the library as it stands (`current` mirror, tied to the code
 by the L2 `mirror` sub-check): every reachable state resets to a fresh writer's observation,
